@@ -588,3 +588,43 @@ def module_vs_evaluator(req):
         row["same"] = row.get("evaluator") == row.get("module_nested") == row.get("module_exposed")
         out.append(row)
     return out
+
+
+@register("parse_probe")
+def parse_probe(req):
+    """replay search for a refuted parse_source clause: real parse_source vs the reference parser on texts built to expose a
+    transformation of the text before lexing (prefix / suffix junk, characters str methods treat specially, very long
+    definitions followed by junk)"""
+    from pyab_experiment.utils.wraper_functions import parse_source
+    base = [t for t in FIXED_PROGRAMS + big_programs()]
+    long_def = "def long { splitters: uid return " + ", ".join('"g%d" weighted 1' % i for i in range(1400)) + " }"
+    texts = []
+    for t in base[:12] + [long_def]:
+        texts.append(t)
+        for pre in ("﻿", "ï»¿", "»", "​", "\x00"):
+            texts.append(pre + t)
+        for suf in (" }", " junk", " @", " def x { return 1 weighted 1 }", "﻿", " \udc80"):
+            texts.append(t + suf)
+    for t in base:
+        if '"' in t:
+            texts.append(t.replace('" ', '"\t', 1))
+    specials = ["a\tb", "a\x0cb", "a b", "a\x85b", "a\rb", "a\x0bb", "a\x1cb", "a  b", " a ", "a\\", "café", "é", "Å", "{x}", "%s", "$x", "x//y", "x/*y*/z"]
+    for sp in specials:
+        texts.append('def s { salt: "%s" splitters: uid if x == "%s" { return "%s" weighted 1 } else { return "n" weighted 1 } }' % (sp, sp, sp))
+    fails, n = [], 0
+    for text in texts:
+        n += 1
+        st, ref = dsl_ref.parse_text(text)
+        try:
+            real = quiet(parse_source, text)
+            rst = "ok" if real is not None else "none"
+        except BaseException as e:   # noqa
+            real, rst = None, "raise:" + type(e).__name__
+        if st == "ok":
+            good = rst == "ok" and same_ast(real_to_spec(real), ref)
+        else:
+            good = rst != "ok"
+        if not good and len(fails) < req.get("limit", 3):
+            fails.append({"text": text if len(text) < 400 else text[:200] + " ... " + text[-150:], "length": len(text), "reference": st, "real": rst,
+                          "what": "parse_source disagrees with the reference parser (acceptance or syntax tree)"})
+    return {"evaluations": n, "failures": fails}
